@@ -10,11 +10,13 @@ package cmd
 
 //@ func invoke writeInPlaceHandler.CreateTempFile
 //@   trusted
+//@   keeps var.completedSuccessfully var.writeInplace var.forceExpression
 //@   modifies tmpPath, tmpMode, targetMode
 //@   ensures targetState == old(targetState) && targetMode == old(targetMode)
 
 //@ func invoke writeInPlaceHandler.FinishWriteInPlace
 //@   trusted
+//@   keeps var.completedSuccessfully
 //@   modifies targetState, targetMode
 //@   ensures implies(!evaluatedSuccessfully, targetState == old(targetState) && targetMode == old(targetMode) && result == nil)
 //@   ensures implies(evaluatedSuccessfully && result == nil, targetState == 1)
